@@ -1,6 +1,7 @@
 HOOK_COMMITS = ["14ff103", "c4cde07"]
 FIX_COMMITS = ["93d05da", "cf94d03", "10032fa"]
-NOTES = ("All claims are bounded (shape concrete, content symbolic); bounds, stubs and what lies outside are in DESIGN.md §5 "
+NOTES = ("Defects found by the checks and repaired in /repo as separate 'fix:' commits: 93d05da (C20), cf94d03 (C15), 10032fa (C04); see known_findings.txt. "
+         "Seeded-change evaluation: /verif/seeded and DESIGN.md section 8. All claims are bounded (shape concrete, content symbolic); bounds, stubs and what lies outside are in DESIGN.md §5 "
          "and repeated in every evidence file. exit 2 = infrastructure/inconclusive, never reported as pass or violation.")
 TB = ("Trusted: Kani 0.68/CBMC 6.11 translation of the pinned nightly std (dev profile); smallvec replaced by an inline-array shim "
       "(capacity 6) and tracing by empty macros during solving - counterexamples are replayed on the real crates before being reported.")
